@@ -34,10 +34,12 @@ MEMBERS = {
     "parrvar": "PrefixedArray(Byte, VarInt)",      # measurable only by parsing, and measuring it reads the count first
     "dflt": "Default(Byte, 7)", "opt": "Optional(Int16ub)",      # members that build from None: the parsed value must still be what is built
     "acst": "Const(b'\\x00')", "apad": "Padding(1)",            # ANONYMOUS members (no name): they shift indexes but not names
-    "arrpre": "Array(2, Prefixed(Byte, GreedyBytes))", "alpre": "Aligned(2, Prefixed(Byte, GreedyBytes))",      # wrappers whose size is not their inner element's
+    "arrpre": "Array(2, Prefixed(Byte, GreedyBytes))", "alpre": "Aligned(2, Prefixed(Byte, GreedyBytes))",
+    "nt": "NullTerminated(GreedyBytes)", "ntic": "NullTerminated(GreedyBytes, include=True, consume=False)", "prevar": "Prefixed(VarInt, GreedyBytes)",      # wrappers whose size is not their inner element's
 }
 ANON = ("acst", "apad")
 QUICK_KINDS = ["u8", "u16", "kw", "pre", "var", "prefix3", "parr", "parrvar", "dflt", "opt", "acst", "arrpre"]
+HAND_LISTS = [["u8", "ntic", "u8"], ["ntic", "u16"], ["prevar", "u8"], ["u8", "prevar", "var"], ["nt", "u8"], ["u8", "nt", "ntic", "u8"]]
 
 
 def instances(tier, seed):
@@ -70,19 +72,25 @@ def instances(tier, seed):
         if tier == "quick":
             return 3
         return {2: 4, 3: 4, 4: 3}.get(len(ml), 2)          # |members|^H access histories per parse path
-    MINSZ = {"u8": 1, "u16": 2, "kw": 0, "pre": 1, "var": 1, "prefix3": 3, "parr": 1, "pad": 3, "cst": 1, "parrvar": 1, "dflt": 1, "opt": 0, "acst": 1, "apad": 1, "arrpre": 2, "alpre": 2}
+    MINSZ = {"nt": 1, "ntic": 1, "prevar": 1, "u8": 1, "u16": 2, "kw": 0, "pre": 1, "var": 1, "prefix3": 3, "parr": 1, "pad": 3, "cst": 1, "parrvar": 1, "dflt": 1, "opt": 0, "acst": 1, "apad": 1, "arrpre": 2, "alpre": 2}
 
     def need(ml):
         return sum(MINSZ[k] for k in ml)
     lists = [ml for ml in lists if need(ml) <= 12]          # the shortest accepted input must fit the symbolic stream
+    lists = lists + [ml for ml in HAND_LISTS if ml not in lists]
     for ml in lists:
         n = (6 if ml.count("prefix3") < 2 else 8) if tier == "quick" else (10 if len(ml) <= 3 and not heavy(ml) else 8)
-        out.append(dict(name="lazystruct %s" % ",".join(ml), params=dict(kind="struct", members=ml, H=hist(ml), n=max(n, min(14, need(ml) + 2))), expect=["ok"]))
+        out.append(dict(name="lazystruct %s" % ",".join(ml), params=dict(kind="struct", members=ml, H=hist(ml), n=max(n, min(14, need(ml) + 2))),
+                        expect=[] if "ntic" in ml[:-1] and tier != "quick" else ["ok"]))
     for k in kinds:
         out.append(dict(name="lazyarray 3 x %s" % k, params=dict(kind="array", elem=k, count=3 if k not in ("var", "prefix3", "pre", "parr") else 2, H=H if k != "var" else 2, n=(6 if k != "prefix3" else 8) if tier == "quick" else 10), expect=["ok"]))
-        if k not in ("var", "parrvar", "opt", "arrpre", "alpre"):          # Lazy needs a sizable field (VarInt: SizeofError at parse time, by design)
+        if k not in ("var", "parrvar", "opt", "arrpre", "alpre", "nt", "ntic"):          # Lazy needs a sizable field (VarInt: SizeofError at parse time, by design)
             out.append(dict(name="lazy field %s" % k, params=dict(kind="lazy", elem=k, n=8), expect=["ok"]))
-    for ml in lists[:12]:
+    if "prevar" not in kinds:
+        out.append(dict(name="lazy field prevar", params=dict(kind="lazy", elem="prevar", n=8), expect=["ok"]))
+        out.append(dict(name="lazyarray 2 x prevar", params=dict(kind="array", elem="prevar", count=2, H=2, n=6), expect=["ok"]))
+    for ml in lists[:12] + HAND_LISTS[:3]:
+        out.append(dict(name="lazy struct inside a region at a non-zero offset: %s" % ",".join(ml), params=dict(kind="region", members=ml, n=8 if tier == "quick" else 10)))
         out.append(dict(name="surrounding parse sees the same position: %s" % ",".join(ml), params=dict(kind="surround", members=ml, n=8)))
         out.append(dict(name="views %s" % ",".join(ml), params=dict(kind="views", members=ml, n=8)))
     return out
@@ -193,6 +201,23 @@ def harness(ctx, C, p):
         ctx.check("accessing a lazy member does not disturb the position seen by the surrounding parse", ctx.eq(rl.value.next, re_.value.next))
         if any(k not in ANON for k in ml):
             ctx.check("the accessed value is the eager one", ctx.eq(rl.value.probe, re_.value.l["m%d" % first]))
+        return "ok"
+    if kind == "region":
+        # the lazy struct lives in a Prefixed region that starts 3 bytes into the stream: everything is as with the eager struct there
+        ml = p["members"]
+        eager = mk(C, "Struct('h'/Bytes(2), 'p'/Prefixed(Byte, %s), 't'/Byte)" % _struct_src("Struct", ml))
+        lazy = mk(C, "Struct('h'/Bytes(2), 'p'/Prefixed(Byte, %s), 't'/Byte)" % _struct_src("LazyStruct", ml))
+        se, sl = ctx.stream(data), ctx.stream(data)
+        re_, rl = api.outcome(eager.parse_stream, se, n=kwn), api.outcome(lazy.parse_stream, sl, n=kwn)
+        if not re_.ok:
+            return "eager-reject"
+        ctx.check("a lazy struct inside a region accepts what the eager struct accepts there", rl.ok)
+        ctx.check("the outer stream ends at the same position and the trailer is the same", sl.tell() == se.tell() and ctx.fork(ctx.eq(rl.value.t, re_.value.t)))
+        for i, k in enumerate(ml):
+            if k in ANON:
+                continue
+            v = api.outcome(lambda: rl.value.p["m%d" % i])
+            ctx.check("member %d read lazily inside the region equals the eager value" % i, v.ok and ctx.fork(ctx.eq(v.value, re_.value.p["m%d" % i])))
         return "ok"
     if kind == "views":
         ml = p["members"]
